@@ -256,8 +256,9 @@ void World::run()
 }
 
 // ---------------------------------------------------------------------------------------------- network
-bool World::applySetField(Bytes& b, int field, int idx, int64_t val)
+bool World::applySetField(Bytes& b, int field, int idx, int64_t val, bool rel)
 {
+    // rel: val is a delta to "what is really left behind this field" (resolved on the actual bytes)
     if (b.size() < wire::CMP_HDR)
         return false;
     switch (field)
@@ -280,7 +281,9 @@ bool World::applySetField(Bytes& b, int field, int idx, int64_t val)
         case FLD_TECMP_PLEN:
             if (b.size() < wire::TECMP_HDR)
                 return false;
-            wire::wr16(b.data() + 24, static_cast<uint16_t>(val));
+            if (rel)
+                val += static_cast<int64_t>(b.size() - wire::TECMP_HDR);
+            wire::wr16(b.data() + 24, static_cast<uint16_t>(std::max<int64_t>(0, val)));
             return true;
         case FLD_TECMP_MTYPE:
             b[5] = static_cast<uint8_t>(val);
@@ -298,7 +301,9 @@ bool World::applySetField(Bytes& b, int field, int idx, int64_t val)
                 off = wire::TECMP_HDR + 4 + (idx & 1);  // vendor data length of the status payloads
             if (off >= b.size())
                 return false;
-            b[off] = static_cast<uint8_t>(val);
+            if (rel)
+                val += static_cast<int64_t>(b.size() - off - 1);
+            b[off] = static_cast<uint8_t>(std::max<int64_t>(0, val));
             return true;
         }
         default:
@@ -311,7 +316,9 @@ bool World::applySetField(Bytes& b, int field, int idx, int64_t val)
     switch (field)
     {
         case FLD_MSG_PLEN:
-            wire::wr16(b.data() + m.off + 14, static_cast<uint16_t>(val));
+            if (rel)
+                val += static_cast<int64_t>(b.size() - m.off - wire::MSG_HDR);
+            wire::wr16(b.data() + m.off + 14, static_cast<uint16_t>(std::max<int64_t>(0, val)));
             return true;
         case FLD_MSG_PTYPE:
             b[m.off + 13] = static_cast<uint8_t>(val);
@@ -330,6 +337,11 @@ bool World::applySetField(Bytes& b, int field, int idx, int64_t val)
                 return false;
             if (off + width > m.h.plen)
                 return false;
+            if (rel)
+                val = (val & 0xFFFF) - ((val & 0x8000) ? 0x10000 : 0) + static_cast<int64_t>(m.h.plen - off - static_cast<size_t>(width)) -
+                      (kind == wire::K_IFSTAT && which == 0 ? 2 : 0);  // stream-id count: a vendor length field follows
+            if (val < 0)
+                val = 0;
             if (width == 1)
                 b[m.payloadOff() + off] = static_cast<uint8_t>(val);
             else
@@ -409,7 +421,7 @@ void World::applyFaults(const Item& op, std::vector<InFlight>& frames, std::vect
                 }
                 break;
             case F_SETFIELD:
-                if (applySetField(fr.bytes, static_cast<int>(a), static_cast<int>(b), c))
+                if (applySetField(fr.bytes, static_cast<int>(a), static_cast<int>(b), c, f.get("rel", 0) != 0))
                 {
                     fr.pristine = false;
                     fault("set-field");
